@@ -53,6 +53,16 @@ def load_prop(pid):
         prop.agree = list(reg.get('agree', []))
         prop.agree_theorems = list(reg.get('agree_theorems', []))
         prop.by_module = dict(reg.get('by_module', {}))
+        if os.environ.get('VERIF_SELFTEST_NO_SOURCE_LEAVES'):
+            # mutation self-test only (harness/seedmatrix.py; never set by a registered command): the source-agreement leaves are soft
+            # obligations (DESIGN 11.7) and rebuilding all of them for each of ~170 seeded changes takes minutes per change; the matrix
+            # measures what the hard obligations, the correspondence and the judges report
+            soft = [m for m in prop.agree if '.PyAgree.' in m]
+            drop = set(t for m in soft for t in prop.by_module.get(m, []))
+            prop.agree = [m for m in prop.agree if m not in soft]
+            prop.agree_theorems = [t for t in prop.agree_theorems if t not in drop]
+            for m in soft:
+                prop.by_module.pop(m, None)
     return prop
 
 
